@@ -514,6 +514,9 @@ func (r *runner) finish(wi *waiterInfo, res result) {
 		if to, ok := r.bodyID[b]; !ok || to != wi.id {
 			r.oracle("caller %d (request id %d) received reply body %d addressed to id %d", wi.k, wi.id, b, to)
 		}
+	} else if res.v == nil {
+		o.Class, o.Val = 2, 4 // (nil, nil): the model's DoneErr 4
+		r.oracle("caller %d (request id %d) returned (nil, nil): neither a reply nor an error", wi.k, wi.id)
 	} else {
 		o.Class, o.Val = 1, -1
 		r.oracle("caller %d returned a value that is no reply of this run: %T", wi.k, res.v)
@@ -1071,6 +1074,255 @@ loop:
 	return r.cs
 }
 
+// ---------------------------------------------------------------- callers crossing the int32 boundary of the id space together
+// n callers spin on a flag and are released at once while the id counter stands k steps before
+// MaxInt32; all requests are in flight before any reply is sent. Direct oracle: two requests
+// in flight never carry the same id; then every caller gets its own reply.
+func boundaryCase(rng *hutil.Rng, n, k int) *c14case {
+	t0 := time.Now()
+	c0 := uint32(2147483647 - k)
+	r := newRunner("boundary", c0, uint32(rng.Next()))
+	reg := r.open()
+	r.reply(reg.id)
+	r.obs()
+	var mu sync.Mutex
+	sent := map[int]int32{}
+	r.w.mu.Lock()
+	r.w.hook = func(rec wrec) {
+		if strings.HasPrefix(rec.Tag, "c") {
+			i, _ := strconv.Atoi(rec.Tag[1:])
+			mu.Lock()
+			sent[i] = rec.ID
+			mu.Unlock()
+		}
+	}
+	r.w.mu.Unlock()
+	var ready, goFlag atomic.Int32
+	type cres struct {
+		i   int
+		res result
+	}
+	resCh := make(chan cres, n)
+	for i := 0; i < n; i++ {
+		go func(i int) {
+			defer func() {
+				if p := recover(); p != nil {
+					resCh <- cres{i, result{nil, fmt.Errorf("panic: %v", p)}}
+				}
+			}()
+			ready.Add(1)
+			for goFlag.Load() == 0 {
+			}
+			v, err := sgetty.GetGettyRemotingClient().SendSyncRequest(message.GlobalBeginRequest{TransactionName: "c" + strconv.Itoa(i)})
+			resCh <- cres{i, result{v, err}}
+		}(i)
+	}
+	for ready.Load() < int32(n) {
+		time.Sleep(50 * time.Microsecond)
+	}
+	goFlag.Store(1)
+	lim, stop := patient(10 * time.Second)
+	defer stop()
+	nsent := func() int { mu.Lock(); defer mu.Unlock(); return len(sent) }
+waitSent:
+	for nsent() < n {
+		select {
+		case <-lim:
+			r.oracle("%d of %d callers wrote a request within 10 s", nsent(), n)
+			break waitSent
+		default:
+			time.Sleep(50 * time.Microsecond)
+		}
+	}
+	r.w.mu.Lock()
+	r.w.hook = nil
+	r.w.mu.Unlock()
+	mu.Lock()
+	byID := map[int32][]int{}
+	for i, id := range sent {
+		byID[id] = append(byID[id], i)
+	}
+	mu.Unlock()
+	for id, l := range byID {
+		if len(l) > 1 {
+			sort.Ints(l)
+			r.oracle("%d requests in flight at once carry the same id %d (callers %v of %d released together, id counter %d before the crossing): one future replaces the other", len(l), id, l, n, c0+1)
+		}
+	}
+	type snd struct {
+		i   int
+		id  int32
+		off uint32
+	}
+	var sends []snd
+	for i, id := range sent {
+		sends = append(sends, snd{i, id, uint32(id) - c0})
+	}
+	sort.Slice(sends, func(a, b int) bool {
+		return sends[a].off < sends[b].off || (sends[a].off == sends[b].off && sends[a].i < sends[b].i)
+	})
+	base := r.nextK
+	for j, sd := range sends {
+		r.ev("S", base+j, false)
+		r.ws[base+j] = &waiterInfo{k: base + j, sync: true, id: sd.id, hasID: true, waiting: true}
+	}
+	r.nextK = base + len(sends)
+	r.obs()
+	if len(r.cs.Oracle) > 0 { // the failing input is complete; the callers are left to their timeouts
+		r.finalOut()
+		r.handler.OnClose(r.sess)
+		r.cs.Secs = time.Since(t0).Seconds()
+		return r.cs
+	}
+	// one reply each, from separate goroutines, in a random order
+	order := rng.Intn(len(sends) + 1)
+	var wg sync.WaitGroup
+	bodies := map[int32]int64{}
+	for j := range sends {
+		sd := sends[(j+order)%len(sends)]
+		r.nextBody++
+		b := r.nextBody
+		r.bodyID[b] = sd.id
+		bodies[sd.id] = b
+		wg.Add(1)
+		go func(id int32, b int64) {
+			defer func() { recover(); wg.Done() }()
+			r.handler.OnMessage(r.sess, message.RpcMessage{ID: id, Type: message.GettyRequestTypeResponse, Codec: 1,
+				Body: message.GlobalBeginResponse{Xid: strconv.FormatInt(b, 10)}})
+		}(sd.id, b)
+	}
+	got := map[int]result{}
+	lim2, stop2 := patient(10 * time.Second)
+	defer stop2()
+collect:
+	for len(got) < n {
+		select {
+		case c := <-resCh:
+			got[c.i] = c.res
+		case <-lim2:
+			break collect
+		}
+	}
+	wdone := make(chan struct{})
+	go func() { wg.Wait(); close(wdone) }()
+	lim3, stop3 := patient(5 * time.Second)
+	defer stop3()
+	select {
+	case <-wdone:
+	case <-lim3:
+		r.oracle("reply deliveries still blocked 5 s after the replies were sent")
+	}
+	for j, sd := range sends {
+		wi := r.ws[base+j]
+		res, ok := got[sd.i]
+		r.ev("D", int64(sd.id), bodies[sd.id])
+		r.ev("R", int64(sd.id))
+		if !ok {
+			r.oracle("caller %d (id %d) did not return although its reply was delivered", sd.i, sd.id)
+			continue
+		}
+		if res.err == nil && res.v != nil {
+			r.ev("K", wi.k)
+		}
+		r.finish(wi, res)
+		if res.err != nil {
+			r.oracle("caller %d (id %d) got error %q although its reply was delivered", sd.i, sd.id, firstLine(res.err.Error()))
+		}
+	}
+	r.obs()
+	r.endChecks(true)
+	r.fresh()
+	r.endChecks(true)
+	r.finalOut()
+	r.handler.OnClose(r.sess)
+	r.cs.Secs = time.Since(t0).Seconds()
+	return r.cs
+}
+
+// ---------------------------------------------------------------- prompt replies (used under the race detector)
+type promptResult struct {
+	Requests int      `json:"requests"`
+	Nil      int      `json:"nil_returns"`
+	Oracle   []string `json:"oracle"`
+	Secs     float64  `json:"secs"`
+}
+
+// promptBurst: g callers send requests one after the other; the fake session answers each
+// request at once from its own goroutine (exactly one reply per request, no duplicates), so a
+// waiter wakes up as early as it can. Every caller must return the reply to its own request.
+func promptBurst(g, per int) *promptResult {
+	t0 := time.Now()
+	res := &promptResult{}
+	r := newRunner("prompt", 1000, 500000)
+	reg := r.open()
+	r.reply(reg.id)
+	handler, sess := r.handler, r.sess
+	r.w.mu.Lock()
+	r.w.hook = func(rec wrec) {
+		if !strings.HasPrefix(rec.Tag, "p") {
+			return
+		}
+		go func() {
+			defer func() { recover() }()
+			handler.OnMessage(sess, message.RpcMessage{ID: rec.ID, Type: message.GettyRequestTypeResponse, Codec: 1,
+				Body: message.GlobalBeginResponse{Xid: "re-" + rec.Tag}})
+		}()
+	}
+	r.w.mu.Unlock()
+	var mu sync.Mutex
+	var wg sync.WaitGroup
+	for w := 0; w < g; w++ {
+		wg.Add(1)
+		go func(w int) {
+			defer wg.Done()
+			for i := 0; i < per; i++ {
+				tag := "p" + strconv.Itoa(w) + "-" + strconv.Itoa(i)
+				v, err := func() (v interface{}, err error) {
+					defer func() {
+						if p := recover(); p != nil {
+							err = fmt.Errorf("panic: %v", p)
+						}
+					}()
+					return sgetty.GetGettyRemotingClient().SendSyncRequest(message.GlobalBeginRequest{TransactionName: tag})
+				}()
+				mu.Lock()
+				res.Requests++
+				switch {
+				case err != nil:
+					res.Oracle = append(res.Oracle, fmt.Sprintf("request %s answered at once: caller got error %q", tag, firstLine(err.Error())))
+				case v == nil:
+					res.Nil++
+					if res.Nil <= 3 {
+						res.Oracle = append(res.Oracle, fmt.Sprintf("request %s answered at once: caller returned (nil, nil), not its reply", tag))
+					}
+				default:
+					if gb, ok := v.(message.GlobalBeginResponse); !ok || gb.Xid != "re-"+tag {
+						res.Oracle = append(res.Oracle, fmt.Sprintf("request %s answered at once: caller returned %v, not its reply", tag, v))
+					}
+				}
+				stop := len(res.Oracle) >= 3
+				mu.Unlock()
+				if stop {
+					return
+				}
+			}
+		}(w)
+	}
+	done := make(chan struct{})
+	go func() { wg.Wait(); close(done) }()
+	lim, stopL := patient(120 * time.Second)
+	defer stopL()
+	select {
+	case <-done:
+	case <-lim:
+		mu.Lock()
+		res.Oracle = append(res.Oracle, "prompt burst did not finish within its bound")
+		mu.Unlock()
+	}
+	res.Secs = time.Since(t0).Seconds()
+	return res
+}
+
 // ---------------------------------------------------------------- one batch with real timeouts (20 s)
 func batchCase(rng *hutil.Rng, n int) *c14case {
 	t0 := time.Now()
@@ -1203,6 +1455,11 @@ func Run14(args map[string]string) {
 	mode := hutil.ArgStr(args, "mode", "seq")
 	rng := hutil.NewRng(seed ^ 0xC14)
 	var cases []*c14case
+	if mode == "prompt" {
+		hutil.WriteJSON(args["out"], map[string]interface{}{"cases": cases, "mode": mode, "seed": seed,
+			"prompt": promptBurst(hutil.ArgInt(args, "g", 8), hutil.ArgInt(args, "per", 500))})
+		return
+	}
 	if mode == "batch" {
 		cases = append(cases, batchCase(rng.Fork(77), hutil.ArgInt(args, "nbatch", 24)))
 	} else {
@@ -1227,6 +1484,10 @@ func Run14(args map[string]string) {
 				}
 				cases = append(cases, permCase(rng.Fork(uint64(50000+100*n+pi)), n, order, pi%2 == 1))
 			}
+		}
+		// callers crossing the int32 boundary of the id space together
+		for i := 0; i < hutil.ArgInt(args, "nbound", 40) && failing() < 3; i++ {
+			cases = append(cases, boundaryCase(rng.Fork(uint64(70000+i)), 8+rng.Intn(8), 1+rng.Intn(4)))
 		}
 		sizes := []int{1, 2, 8, 64}
 		nconc := hutil.ArgInt(args, "nconc", 8)
